@@ -392,7 +392,8 @@ RoStep(s0) ==
       old == sB.ro
   IN
   IF old.deleting
-  THEN LET sC == IF old.phase # "Terminating" THEN [sB EXCEPT !.ro.phase = "Terminating", !.ro.treason = "InTerminating"] ELSE sB IN
+  THEN LET sC == IF old.phase # "Terminating"
+                 THEN [sB EXCEPT !.ro.phase = "Terminating", !.ro.treason = "InTerminating"] ELSE sB IN
        RoDispatch(sC, old)
   ELSE
   LET sC == IF sB.user.disabled /\ old.phase \notin {"Disabled", "Disabling"}
